@@ -64,8 +64,17 @@ func originatesFromParam(v ssa.Value, pm *ssa.Parameter) bool {
 	if len(vals) == 0 {
 		return false
 	}
+	// while a helper is summarised its parameters are bound to the call's arguments: a value
+	// that comes from pm then resolves to whatever pm is bound to
+	targets := map[ssa.Value]bool{pm: true}
+	if b, bound := ParamBinding[pm]; bound && b != nil {
+		bv, _ := Origins(b)
+		for _, o := range bv {
+			targets[o] = true
+		}
+	}
 	for _, o := range vals {
-		if o != pm {
+		if !targets[o] {
 			return false
 		}
 	}
